@@ -70,49 +70,447 @@ def pi_multiple(node):
     return None
 
 
-def _name_table(test):
-    """``<expr> in (<str>, ...)`` somewhere in an if-test -> (expr, [names], compare node)."""
-    for n in ast.walk(test):
-        if isinstance(n, ast.Compare) and len(n.ops) == 1 and isinstance(n.ops[0], ast.In):
-            c = n.comparators[0]
-            if isinstance(c, (ast.Tuple, ast.List, ast.Set)) and c.elts and all(isinstance(e, ast.Constant) and isinstance(e.value, str) for e in c.elts):
-                return n.left, [e.value for e in c.elts], n
+# ---- a small partial evaluator: modulus_for(name) of a hashing / canonicalising function ----------
+
+
+class _V:
+    """abstract values: ('pi', Fraction) | ('none',) | ('str', s) | ('bool', b) | ('num', Fraction) |
+    ('dict', {key: value}) | ('seq', [values]) | UNKNOWN"""
+
+
+UNKNOWN = ("?",)
+NONE = ("none",)
+
+
+def _truth(v):
+    if v[0] == "bool":
+        return v[1]
+    if v[0] == "none":
+        return False
+    if v[0] == "pi":
+        return bool(v[1])
+    if v[0] == "str":
+        return bool(v[1])
+    if v[0] == "num":
+        return bool(v[1])
+    if v[0] in ("dict", "seq"):
+        return bool(v[1])
     return None
 
 
-def _modulus_in(body):
-    """first modulus of the branch: ``v = k*pi`` (used by a later ``%``) or ``... % (k*pi)``."""
-    for st in body:
-        for n in ast.walk(st):
-            if isinstance(n, ast.Assign) and len(n.targets) == 1 and isinstance(n.targets[0], ast.Name):
-                k = pi_multiple(n.value)
-                if k is not None:
-                    return k, n.targets[0].id, n
-            if isinstance(n, ast.BinOp) and isinstance(n.op, ast.Mod):
-                k = pi_multiple(n.right)
-                if k is not None:
-                    return k, None, n
-    return None
+class ModulusEval:
+    """Evaluates one function with its operator-name expression bound to a concrete string and
+    records every right operand of a ``%`` that can be reached: [(value, tainted)].  ``tainted``:
+    reached through a condition that mentions the name and could not be evaluated."""
+
+    MAX_STEPS = 20000
+
+    def __init__(self, ix, f: FuncInfo, name_texts, name):
+        self.ix, self.f, self.name_texts, self.name = ix, f, name_texts, name
+        self.records = []
+        self.steps = 0
+        self.depth = 0
+
+    # -- expressions
+    def mentions_name(self, node):
+        txt = norm(node)
+        return any(t in txt for t in self.name_texts)
+
+    def module_value(self, module, name, seen=()):
+        vals = module.all_assigns.get(name, [])
+        if len(vals) != 1 or (module.relpath, name) in seen:
+            r = self.ix.resolve_expr(module, ast.Name(id=name, ctx=ast.Load()))
+            if isinstance(r, tuple) and r[0] == "value" and r[1] is not module:
+                home = next((nm for nm, vs in r[1].all_assigns.items() if any(v is r[2] for v in vs)), None)
+                if home:
+                    return self.module_value(r[1], home, seen + ((module.relpath, name),))
+            return UNKNOWN
+        # a table that is also mutated at module level is not a constant
+        for st in module.tree.body:
+            for n in ast.walk(st) if not isinstance(st, (ast.FunctionDef, ast.ClassDef)) else ():
+                if isinstance(n, ast.Subscript) and isinstance(n.ctx, (ast.Store, ast.Del)) and isinstance(n.value, ast.Name) and n.value.id == name:
+                    return UNKNOWN
+                if isinstance(n, ast.Call) and isinstance(n.func, ast.Attribute) and isinstance(n.func.value, ast.Name) and n.func.value.id == name \
+                        and n.func.attr in ("update", "pop", "setdefault", "clear", "popitem", "append", "extend", "add", "remove"):
+                    return UNKNOWN
+        sub = ModulusEval(self.ix, FuncInfo(module, self.f.node), (), None)
+        sub.module = module
+        return sub.eval(vals[0], {}, module=module, seen=seen + ((module.relpath, name),))
+
+    def eval(self, node, env, module=None, seen=()):
+        self.steps += 1
+        if self.steps > self.MAX_STEPS:
+            return UNKNOWN
+        module = module or self.f.module
+        if self.name is not None and norm(node) in self.name_texts:
+            return ("str", self.name)
+        k = pi_multiple(node)
+        if k is not None:
+            return ("pi", k)
+        if isinstance(node, ast.Constant):
+            v = node.value
+            if v is None:
+                return NONE
+            if isinstance(v, bool):
+                return ("bool", v)
+            if isinstance(v, str):
+                return ("str", v)
+            if isinstance(v, (int, float)):
+                c = T.cx_of(v)
+                return ("num", c.re) if c is not None else UNKNOWN
+            return UNKNOWN
+        if isinstance(node, ast.Name):
+            if node.id in env:
+                return env[node.id]
+            return self.module_value(module, node.id, seen)
+        if isinstance(node, (ast.Tuple, ast.List, ast.Set)):
+            return ("seq", [self.eval(e, env, module, seen) for e in node.elts])
+        if isinstance(node, ast.Dict):
+            d = {}
+            for kk, vv in zip(node.keys, node.values):
+                if kk is None:
+                    m = self.eval(vv, env, module, seen)
+                    if m[0] != "dict":
+                        return UNKNOWN
+                    d.update(m[1])
+                else:
+                    kv = self.eval(kk, env, module, seen)
+                    if kv[0] != "str":
+                        return UNKNOWN
+                    d[kv[1]] = self.eval(vv, env, module, seen)
+            return ("dict", d)
+        if isinstance(node, ast.BinOp) and isinstance(node.op, ast.BitOr):
+            a, b = self.eval(node.left, env, module, seen), self.eval(node.right, env, module, seen)
+            if a[0] == "dict" and b[0] == "dict":
+                return ("dict", {**a[1], **b[1]})
+            return UNKNOWN
+        if isinstance(node, ast.UnaryOp) and isinstance(node.op, ast.Not):
+            t = _truth(self.eval(node.operand, env, module, seen))
+            return UNKNOWN if t is None else ("bool", not t)
+        if isinstance(node, ast.BoolOp):
+            vals = [self.eval(v, env, module, seen) for v in node.values]
+            is_and = isinstance(node.op, ast.And)
+            for v in vals:  # Python value semantics, left to right
+                t = _truth(v)
+                if t is None:
+                    # an unknown operand: the result is known only if a later operand decides it
+                    rest = [_truth(x) for x in vals]
+                    if is_and and any(x is False for x in rest):
+                        return ("bool", False)
+                    if not is_and and any(x is True for x in rest) and all(x is not None for x in rest[: rest.index(True)]):
+                        return vals[rest.index(True)]
+                    return UNKNOWN
+                if (is_and and not t) or (not is_and and t):
+                    return v
+            return vals[-1]
+        if isinstance(node, ast.Compare) and len(node.ops) == 1:
+            a, b = self.eval(node.left, env, module, seen), self.eval(node.comparators[0], env, module, seen)
+            op = node.ops[0]
+            if isinstance(op, (ast.Is, ast.IsNot)):
+                if b == NONE and a[0] != "?":
+                    r = a == NONE
+                    return ("bool", r if isinstance(op, ast.Is) else not r)
+                return UNKNOWN
+            if isinstance(op, (ast.Eq, ast.NotEq)):
+                if a[0] in ("str", "none", "num", "pi") and b[0] in ("str", "none", "num", "pi"):
+                    return ("bool", (a == b) if isinstance(op, ast.Eq) else (a != b))
+                return UNKNOWN
+            if isinstance(op, (ast.In, ast.NotIn)):
+                if b[0] == "dict":
+                    keys = [("str", x) for x in b[1]]
+                elif b[0] == "seq":
+                    keys = b[1]
+                    if any(x[0] == "?" for x in keys):
+                        return UNKNOWN
+                else:
+                    return UNKNOWN
+                if a[0] == "?":
+                    return UNKNOWN
+                r = a in keys
+                return ("bool", r if isinstance(op, ast.In) else not r)
+            return UNKNOWN
+        if isinstance(node, ast.IfExp):
+            t = _truth(self.eval(node.test, env, module, seen))
+            if t is None:
+                a, b = self.eval(node.body, env, module, seen), self.eval(node.orelse, env, module, seen)
+                return a if a == b else UNKNOWN
+            return self.eval(node.body if t else node.orelse, env, module, seen)
+        if isinstance(node, ast.Subscript):
+            tv, kv = self.eval(node.value, env, module, seen), self.eval(node.slice, env, module, seen)
+            if tv[0] == "dict" and kv[0] == "str" and kv[1] in tv[1]:
+                return tv[1][kv[1]]
+            return UNKNOWN
+        if isinstance(node, ast.Call):
+            fn = norm(node.func)
+            args = node.args
+            if fn == "dict.fromkeys" and 1 <= len(args) <= 2 and not node.keywords:
+                ks = self.eval(args[0], env, module, seen)
+                v = self.eval(args[1], env, module, seen) if len(args) == 2 else NONE
+                if ks[0] in ("seq", "dict"):
+                    keys = ks[1] if ks[0] == "seq" else [("str", x) for x in ks[1]]
+                    if all(x[0] == "str" for x in keys):
+                        return ("dict", {x[1]: v for x in keys})
+                return UNKNOWN
+            if fn == "dict":
+                d = {}
+                if len(args) > 1:
+                    return UNKNOWN
+                if args:
+                    m = self.eval(args[0], env, module, seen)
+                    if m[0] == "dict":
+                        d.update(m[1])
+                    elif m[0] == "seq" and all(x[0] == "seq" and len(x[1]) == 2 and x[1][0][0] == "str" for x in m[1]):
+                        d.update({x[1][0][1]: x[1][1] for x in m[1]})
+                    else:
+                        return UNKNOWN
+                for kw in node.keywords:
+                    if kw.arg is None:
+                        m = self.eval(kw.value, env, module, seen)
+                        if m[0] != "dict":
+                            return UNKNOWN
+                        d.update(m[1])
+                    else:
+                        d[kw.arg] = self.eval(kw.value, env, module, seen)
+                return ("dict", d)
+            if fn in ("tuple", "list", "set", "frozenset", "sorted") and len(args) == 1:
+                m = self.eval(args[0], env, module, seen)
+                if m[0] == "seq":
+                    return m
+                if m[0] == "dict":
+                    return ("seq", [("str", x) for x in m[1]])
+                return UNKNOWN
+            if isinstance(node.func, ast.Attribute) and node.func.attr == "get" and 1 <= len(args) <= 2:
+                tv = self.eval(node.func.value, env, module, seen)
+                kv = self.eval(args[0], env, module, seen)
+                if tv[0] == "dict" and kv[0] in ("str", "none"):
+                    if kv[0] == "str" and kv[1] in tv[1]:
+                        return tv[1][kv[1]]
+                    return self.eval(args[1], env, module, seen) if len(args) == 2 else NONE
+                return UNKNOWN
+            return UNKNOWN
+        return UNKNOWN
+
+    # -- reachability scan for `%`
+    def scan(self, node, env, taint, local_defs):
+        """visit every sub-expression that can be evaluated on some run; record `%` moduli."""
+        self.steps += 1
+        if self.steps > self.MAX_STEPS or node is None:
+            return
+        if isinstance(node, ast.IfExp):
+            self.scan(node.test, env, taint, local_defs)
+            t = _truth(self.eval(node.test, env))
+            t2 = taint or (t is None and self.mentions_name_env(node.test, env))
+            if t is not False:
+                self.scan(node.body, env, t2, local_defs)
+            if t is not True:
+                self.scan(node.orelse, env, t2, local_defs)
+            return
+        if isinstance(node, ast.BinOp) and isinstance(node.op, ast.Mod):
+            left_is_str = isinstance(node.left, (ast.Constant, ast.JoinedStr)) and not isinstance(getattr(node.left, "value", 0), (int, float))
+            if not left_is_str:
+                self.records.append((self.eval(node.right, env), taint, node))
+        if isinstance(node, ast.Call) and isinstance(node.func, ast.Name) and node.func.id in local_defs and self.depth < 4:
+            g = local_defs[node.func.id]
+            a = g.args
+            params = [x.arg for x in a.posonlyargs + a.args]
+            sub = dict(env)
+            for pn, an in zip(params, node.args):
+                sub[pn] = self.eval(an, env)
+            for kw in node.keywords:
+                if kw.arg in params:
+                    sub[kw.arg] = self.eval(kw.value, env)
+            for pn in params[len(node.args):]:
+                sub.setdefault(pn, UNKNOWN) if pn not in {kw.arg for kw in node.keywords} else None
+            self.depth += 1
+            self.run(g.body, sub, taint, dict(local_defs))
+            self.depth -= 1
+        if isinstance(node, (ast.Lambda, ast.FunctionDef, ast.AsyncFunctionDef, ast.ClassDef)):
+            return
+        if isinstance(node, (ast.ListComp, ast.SetComp, ast.GeneratorExp, ast.DictComp)):
+            sub = dict(env)
+            for g in node.generators:
+                self.scan(g.iter, sub, taint, local_defs)
+                for nm in ast.walk(g.target):
+                    if isinstance(nm, ast.Name):
+                        sub[nm.id] = UNKNOWN
+                for c in g.ifs:
+                    self.scan(c, sub, taint, local_defs)
+            for part in ([node.key, node.value] if isinstance(node, ast.DictComp) else [node.elt]):
+                self.scan(part, sub, taint, local_defs)
+            return
+        for ch in ast.iter_child_nodes(node):
+            if isinstance(ch, ast.expr) or isinstance(ch, (ast.keyword, ast.comprehension)):
+                self.scan(ch, env, taint, local_defs)
+
+    def mentions_name_env(self, node, env):
+        if self.mentions_name(node):
+            return True
+        # a variable that was computed from the name (mod_val = TABLE.get(op_name)) and is unknown
+        return any(isinstance(n, ast.Name) and env.get(n.id) == UNKNOWN and n.id in self._name_derived for n in ast.walk(node))
+
+    _name_derived = frozenset()
+
+    # -- statements;  returns True when every path has returned/raised
+    def run(self, stmts, env, taint, local_defs):
+        for st in stmts:
+            self.steps += 1
+            if self.steps > self.MAX_STEPS:
+                return False
+            if isinstance(st, (ast.FunctionDef, ast.AsyncFunctionDef)):
+                local_defs[st.name] = st
+                continue
+            if isinstance(st, ast.Assign):
+                self.scan(st.value, env, taint, local_defs)
+                v = self.eval(st.value, env)
+                for t in st.targets:
+                    for nm in ast.walk(t):
+                        if isinstance(nm, ast.Name) and isinstance(nm.ctx, ast.Store):
+                            env[nm.id] = v if isinstance(t, ast.Name) else UNKNOWN
+                            if self.mentions_name_env(st.value, env):
+                                self._name_derived = self._name_derived | {nm.id}
+                continue
+            if isinstance(st, ast.AnnAssign) and st.value is not None and isinstance(st.target, ast.Name):
+                self.scan(st.value, env, taint, local_defs)
+                env[st.target.id] = self.eval(st.value, env)
+                continue
+            if isinstance(st, ast.AugAssign):
+                self.scan(st.value, env, taint, local_defs)
+                if isinstance(st.op, ast.Mod):
+                    self.records.append((self.eval(st.value, env), taint, st))
+                if isinstance(st.target, ast.Name):
+                    env[st.target.id] = UNKNOWN
+                continue
+            if isinstance(st, ast.Return):
+                self.scan(st.value, env, taint, local_defs)
+                return True
+            if isinstance(st, ast.Raise):
+                return True
+            if isinstance(st, ast.Expr):
+                self.scan(st.value, env, taint, local_defs)
+                continue
+            if isinstance(st, ast.If):
+                self.scan(st.test, env, taint, local_defs)
+                t = _truth(self.eval(st.test, env))
+                if t is True:
+                    if self.run(st.body, env, taint, local_defs):
+                        return True
+                elif t is False:
+                    if self.run(st.orelse, env, taint, local_defs):
+                        return True
+                else:
+                    t2 = taint or self.mentions_name_env(st.test, env)
+                    e1, e2 = dict(env), dict(env)
+                    r1 = self.run(st.body, e1, t2, local_defs)
+                    r2 = self.run(st.orelse, e2, t2, local_defs)
+                    if r1 and r2:
+                        return True
+                    outs = [e for e, r in ((e1, r1), (e2, r2)) if not r]
+                    for kx in set().union(*[set(o) for o in outs]):
+                        vs = [o.get(kx, UNKNOWN) for o in outs]
+                        env[kx] = vs[0] if all(v == vs[0] for v in vs) else UNKNOWN
+                        if t2 and env[kx] == UNKNOWN:
+                            self._name_derived = self._name_derived | {kx}
+                continue
+            # loops / with / try / match: visit everything once, forget assigned names
+            for n in ast.walk(st):
+                if isinstance(n, ast.Name) and isinstance(n.ctx, ast.Store):
+                    env[n.id] = UNKNOWN
+            for field in ("iter", "test", "subject"):
+                if getattr(st, field, None) is not None:
+                    self.scan(getattr(st, field), env, taint, local_defs)
+            for it in getattr(st, "items", []) or []:
+                self.scan(it.context_expr, env, taint, local_defs)
+            for field in ("body", "orelse", "finalbody"):
+                body = getattr(st, field, None)
+                if isinstance(body, list) and body and isinstance(body[0], ast.stmt):
+                    self.run(body, env, taint, local_defs)
+            for h in getattr(st, "handlers", []) or []:
+                self.run(h.body, env, taint, local_defs)
+            for case in getattr(st, "cases", []) or []:
+                self.run(case.body, env, True, local_defs)
+        return False
 
 
-def modulus_tables(f: FuncInfo):
-    """every (names -> modulus) entry of a function: [(tested expr, names, k, var, if-node)]"""
-    out = []
-    has_mod = any(isinstance(n, ast.BinOp) and isinstance(n.op, ast.Mod) for n in ast.walk(f.node))
+def name_expressions(ix, f: FuncInfo):
+    """expressions of ``f`` that hold an operator name: compared with string literals / used as the key
+    of a table of strings.  -> {normalised text: expr}"""
+    a = f.node.args
+    params = {x.arg for x in a.posonlyargs + a.args + a.kwonlyargs}
+    ev = ModulusEval(ix, f, (), None)
+
+    def is_table(node):
+        v = ev.eval(node, {})
+        return v[0] == "dict" and v[1] and True or (v[0] == "seq" and v[1] and all(x[0] == "str" for x in v[1]))
+
+    def ok(e):
+        return (isinstance(e, ast.Attribute) and e.attr == "name") or (isinstance(e, ast.Name) and e.id in params)
+
+    out = {}
     for n in ast.walk(f.node):
-        if not isinstance(n, ast.If):
-            continue
-        nt = _name_table(n.test)
-        if nt is None:
-            continue
-        m = _modulus_in(n.body)
-        if m is None:
-            continue
-        k, var, mnode = m
-        if var is not None and not has_mod:
-            continue  # the constant never reaches a `%`
-        out.append((nt[0], nt[1], k, n, mnode))
+        cands = []
+        if isinstance(n, ast.Compare) and len(n.ops) == 1:
+            l, r = n.left, n.comparators[0]
+            if isinstance(n.ops[0], (ast.In, ast.NotIn)) and is_table(r):
+                cands.append(l)
+            if isinstance(n.ops[0], (ast.Eq, ast.NotEq)):
+                if isinstance(r, ast.Constant) and isinstance(r.value, str):
+                    cands.append(l)
+                if isinstance(l, ast.Constant) and isinstance(l.value, str):
+                    cands.append(r)
+        elif isinstance(n, ast.Call) and isinstance(n.func, ast.Attribute) and n.func.attr == "get" and n.args and is_table(n.func.value):
+            cands.append(n.args[0])
+        elif isinstance(n, ast.Subscript) and isinstance(n.ctx, ast.Load) and is_table(n.value):
+            cands.append(n.slice)
+        for e in cands:
+            if ok(e):
+                out[norm(e)] = e
     return out
+
+
+def mentioned_strings(ix, f: FuncInfo):
+    """string literals of the function and keys/members of the module-level tables it reads."""
+    out = set()
+    ev = ModulusEval(ix, f, (), None)
+    for n in ast.walk(f.node):
+        if isinstance(n, ast.Constant) and isinstance(n.value, str) and n.value.isidentifier():
+            out.add(n.value)
+        elif isinstance(n, ast.Name) and isinstance(n.ctx, ast.Load):
+            v = ev.module_value(f.module, n.id) if n.id in f.module.all_assigns or n.id in f.module.names else UNKNOWN
+            if v[0] == "dict":
+                out |= set(v[1])
+            elif v[0] == "seq":
+                out |= {x[1] for x in v[1] if x[0] == "str"}
+    return out
+
+
+def modulus_map(ix, f: FuncInfo, candidate_names):
+    """-> (name-expression or None, {name: [(k | None=unevaluable, tainted)]}) for names that are reduced"""
+    nexprs = name_expressions(ix, f)
+    if not nexprs:
+        return None, {}
+    if not any(isinstance(n, (ast.BinOp, ast.AugAssign)) and isinstance(n.op, ast.Mod) for n in ast.walk(f.node)):
+        return None, {}
+    texts = tuple(nexprs)
+    out = {}
+    for name in sorted(candidate_names | mentioned_strings(ix, f)):
+        ev = ModulusEval(ix, f, texts, name)
+        a = f.node.args
+        env = {x.arg: UNKNOWN for x in a.posonlyargs + a.args + a.kwonlyargs if x.arg not in texts}
+        ev.run(f.node.body, env, False, {})
+        recs = []
+        for v, taint, _node in ev.records:
+            if v[0] == "pi":
+                recs.append((v[1], taint))
+            elif v[0] == "none":
+                continue  # `% None` is guarded in the source (x if mod is None else x % mod)
+            elif v[0] == "?":
+                recs.append((None, True))
+            # a numeric/str right operand (x % 2, "fmt" % args) is not a parameter period
+        if recs:
+            out[name] = sorted(set(recs), key=lambda r: (r[0] is None, r[0] or 0, r[1]))
+    # a modulus that every name gets (e.g. an unrelated `% n`) is not a name table
+    first = next(iter(nexprs.values()))
+    return first, out
 
 
 def _applicable_owner(ix, f: FuncInfo, tested):
@@ -149,7 +547,7 @@ def _applicable_owner(ix, f: FuncInfo, tested):
 def check_period(ix, rep):
     rule = "R-C05-period"
     anchors = [ix.func(BASE, "_process_data"), ix.func(OP2, "_canonicalize_dynamic"), ix.func(CTRL, "Controlled.__hash__")]
-    # discover further tables by construct anywhere in the operator core / op_math / ops
+    # discover further name->modulus maps by construct anywhere in the operator core / ops
     cands = list(anchors)
     for m in ix.modules.values():
         if not m.relpath.startswith(("pennylane/core/", "pennylane/ops/")) or "pi" not in m.source or "%" not in m.source:
@@ -157,24 +555,43 @@ def check_period(ix, rep):
         for f in ix.funcs_in(m):
             if f not in cands and f.parent is None:
                 cands.append(f)
-    n_tables = n_entries = n_decided = 0
+    n_funcs = n_names = n_entries = n_decided = 0
     by_name = {}
     for c in ix.classes:
-        if T.is_operator_class(c):
+        if T.is_operator_class(c) and T.resolve_compute_matrix(c)[1] is not None:
             by_name.setdefault(c.name, []).append(c)
+    # names worth asking about: operator classes for which E4 has an exact period in some parameter
+    exact_names = set()
+    for name, cs in by_name.items():
+        for c in cs:
+            info = T.analyse_matrix(ix, c)
+            if any(s.freqs is not None and s.exact and T.period(s) is not None for s in info.support.values()):
+                exact_names.add(name)
+    SENTINEL = "__no_such_operator__"
     for f in cands:
-        tabs = modulus_tables(f)
-        if f in anchors and not tabs:
-            raise AnalysisError(f"{f.module.relpath}:{f.qualname}: the (gate names -> modulus) table is no longer recognised")
-        if not tabs:
+        tested, mmap = modulus_map(ix, f, exact_names | {SENTINEL})
+        if SENTINEL in mmap:
+            # a `%` that is applied whatever the name is: not a per-gate canonicalisation
+            generic = set(mmap[SENTINEL])
+            mmap = {n: [r for r in recs if r not in generic] for n, recs in mmap.items()}
+            mmap = {n: recs for n, recs in mmap.items() if recs}
+        if f in anchors and not any(k is not None for recs in mmap.values() for k, _ in recs):
+            raise AnalysisError(f"{f.module.relpath}:{f.qualname}: no operator name evaluates to a modulus any more "
+                                "(the name -> modulus canonicalisation is no longer recognised)")
+        if not mmap:
             continue
+        n_funcs += 1
         rep.analysed(f.module.relpath, f.qualname)
-        for tested, names, k, ifnode, mnode in tabs:
-            n_tables += 1
-            kind, owner = _applicable_owner(ix, f, tested)
-            for name in names:
-                classes = [c for c in by_name.get(name, []) if T.resolve_compute_matrix(c)[1] is not None]
-                where0 = f"{f.module.relpath}:{f.qualname}[{name} % {k}*pi]"
+        kind, owner = _applicable_owner(ix, f, tested)
+        for name, recs in sorted(mmap.items()):
+            n_names += 1
+            classes = by_name.get(name, [])
+            for k, tainted in recs:
+                ktxt = "?" if k is None else f"{k}*pi"
+                where0 = f"{f.module.relpath}:{f.qualname}[{name} % {ktxt}]"
+                if k is None:
+                    rep.unknown(rule, where0, "the modulus applied for this name could not be evaluated")
+                    continue
                 if not classes:
                     rep.unknown(rule, where0, f"no operator class named {name!r} with a compute_matrix")
                     continue
@@ -198,18 +615,22 @@ def check_period(ix, rep):
                         if per is None or (k / per).denominator == 1:
                             n_decided += 1
                             rep.proved(rule, where, f"F={sup!r}: matrix period {'none (constant)' if per is None else str(per) + '*pi'} divides {k}*pi")
-                        elif sup.exact:
+                        elif sup.exact and not tainted:
                             n_decided += 1
                             rep.refuted(rule, f.module.relpath, f.qualname, f"{name}.{p} % ({k}*pi)",
-                                        f"{name}: parameter `{p}` is reduced mod {k}*pi before hashing ({norm(ifnode.test)[:90]}), but "
+                                        f"{name}: parameter `{p}` is reduced mod {k}*pi before hashing (evaluating {f.qualname} with "
+                                        f"{norm(tested)} == {name!r}), but "
                                         f"{c.name}.compute_matrix has the exact Fourier support {sup!r} in `{p}`, i.e. the matrix (global phase "
                                         f"included) has period {per}*pi: {p} and {p}+{k}*pi give different matrices (sign flip) yet equal hashes, so "
                                         "a cached result is returned for a different circuit whenever the phase is observable (inside ctrl/wrappers, "
-                                        "qp.state())", line=getattr(mnode, "lineno", 0), gate=name, param=p, modulus=str(k), period=str(per))
+                                        "qp.state())", line=f.node.lineno, gate=name, param=p, modulus=str(k), period=str(per))
+                        elif tainted:
+                            rep.unknown(rule, where, "reached through a name-dependent condition that could not be evaluated")
                         else:
                             rep.unknown(rule, where, f"F={sup!r} is an over-approximation: period {per}*pi vs modulus {k}*pi cannot be decided")
-    rep.floor("(gate names -> modulus) tables", n_tables, 4)
-    rep.floor("(table, gate, parameter) entries reaching a hash", n_entries, 25)
+    rep.floor("hashing functions with a name -> modulus canonicalisation", n_funcs, 3)
+    rep.floor("(function, gate name) pairs that evaluate to a modulus", n_names, 24)
+    rep.floor("(function, gate, parameter) entries reaching a hash", n_entries, 25)
     rep.floor("period obligations decided (proved or refuted)", n_decided, 25)
 
 
